@@ -256,6 +256,12 @@ pub struct Cfg {
     pub sync_rel: bool,
     pub track: bool,
     pub timeout_ms: u64,
+    /// The server's virtual clock is paused for this many frames before anything happens (the
+    /// real clock keeps running).
+    pub paused_frames: u32,
+    /// Resolve the `k`-th pair of library systems that a schedule leaves unordered although
+    /// their data access conflicts: (PostUpdate?, k, first-before-second?).
+    pub order_choice: Option<(bool, usize, bool)>,
     /// `max_size` of every client connection.
     pub clients: Vec<usize>,
     /// Server tick offset applied before anything connects (wrap-around cells).
@@ -295,6 +301,8 @@ impl Default for Cfg {
             sync_rel: false,
             track: false,
             timeout_ms: 10_000,
+            paused_frames: 0,
+            order_choice: None,
             clients: vec![1200],
             tick_offset: 0,
             events: false,
@@ -535,7 +543,93 @@ pub fn build_app_with(cfg: &Cfg, extra_rule: bool) -> App {
     }
     app.finish();
     app.cleanup();
+    if let Some((post, k, dir)) = cfg.order_choice {
+        force_order(&mut app, post, k, dir).expect("order choice was checked to be feasible");
+    }
     app
+}
+
+/// The pairs of plain library systems (those with a type set of their own) of `PreUpdate` /
+/// `PostUpdate` that have conflicting access and no ordering; after the call the `k`-th of
+/// them is ordered as chosen. `Err` if that contradicts the orderings the library declares.
+pub fn force_order(app: &mut App, post: bool, k: usize, first_before_second: bool) -> Result<String, String> {
+    use bevy::ecs::schedule::{InternedSystemSet, ScheduleLabel};
+    let label = if post { PostUpdate.intern() } else { PreUpdate.intern() };
+    let world = app.world_mut();
+    let mut schedule = world.resource_mut::<Schedules>().remove(label).expect("schedule exists");
+    schedule.initialize(world).expect("schedule builds");
+    let info: std::collections::HashMap<_, (String, Option<InternedSystemSet>)> = schedule
+        .systems()
+        .expect("schedule is initialized")
+        .map(|(id, s)| (id, (s.name().to_string(), s.default_system_sets().into_iter().find(|t| t.system_type().is_some()))))
+        .collect();
+    // every pair of plain library systems; a pair that the declared orderings already decide
+    // is recognized below by one of its two directions being infeasible (a cycle)
+    let mut named: Vec<(String, InternedSystemSet)> = info
+        .values()
+        .filter_map(|(n, s)| Some((n.clone(), (*s)?)))
+        .filter(|(n, _)| n.starts_with("bevy_replicon"))
+        .collect();
+    named.sort_by(|x, y| x.0.cmp(&y.0));
+    let mut pairs: Vec<(String, String, InternedSystemSet, InternedSystemSet)> = Vec::new();
+    for i in 0..named.len() {
+        for j in i + 1..named.len() {
+            if named[i].0 != named[j].0 {
+                pairs.push((named[i].0.clone(), named[j].0.clone(), named[i].1, named[j].1));
+            }
+        }
+    }
+    pairs.sort_by(|x, y| (&x.0, &x.1).cmp(&(&y.0, &y.1)));
+    pairs.dedup_by(|x, y| x.0 == y.0 && x.1 == y.1);
+    let r = match pairs.get(k) {
+        None => Err("no such pair".to_string()),
+        Some((na, nb, sa, sb)) => {
+            let short = |n: &str| n.trim_start_matches("bevy_replicon::").to_string();
+            // (a system's own type set cannot be configured; an access-free system between
+            // the two carries the ordering instead)
+            fn between() {}
+            if first_before_second {
+                schedule.add_systems(between.after(*sa).before(*sb));
+            } else {
+                schedule.add_systems(between.after(*sb).before(*sa));
+            }
+            match schedule.initialize(world) {
+                Ok(()) => Ok(if first_before_second { format!("{} before {}", short(na), short(nb)) } else { format!("{} before {}", short(nb), short(na)) }),
+                Err(e) => Err(format!("{e:?}")),
+            }
+        }
+    };
+    world.resource_mut::<Schedules>().insert(schedule);
+    r
+}
+
+/// Every pair of plain library systems of `PreUpdate` / `PostUpdate` whose order the declared
+/// constraints leave open (both directions build), with both resolutions: (choice, description).
+pub fn order_choices(cfg: &Cfg) -> Vec<((bool, usize, bool), String)> {
+    let mut out = Vec::new();
+    for post in [false, true] {
+        for k in 0.. {
+            let mut got = Vec::new();
+            let mut end = false;
+            for dir in [true, false] {
+                let mut base = cfg.clone();
+                base.order_choice = None;
+                let mut app = build_app(&base);
+                match force_order(&mut app, post, k, dir) {
+                    Ok(desc) => got.push(((post, k, dir), desc)),
+                    Err(e) if e == "no such pair" => end = true,
+                    Err(_) => {}
+                }
+            }
+            if end {
+                break;
+            }
+            if got.len() == 2 {
+                out.extend(got);
+            }
+        }
+    }
+    out
 }
 
 // ------------------------------------------------------------------------------------------
@@ -941,6 +1035,13 @@ impl Sim {
         sim.vis_snaps
             .insert(0, vec![BTreeSet::new(); cfg.clients.len()]);
         sim.auth_snaps.insert(0, vec![false; cfg.clients.len()]);
+        if cfg.paused_frames > 0 {
+            sim.server.world_mut().resource_mut::<Time<Virtual>>().pause();
+            for _ in 0..cfg.paused_frames {
+                sim.server.update();
+            }
+            sim.server.world_mut().resource_mut::<Time<Virtual>>().unpause();
+        }
         sim.server
             .world_mut()
             .resource_mut::<RepliconServer>()
@@ -2495,4 +2596,30 @@ impl ClientView {
             .collect();
         format!("upd{} [{}]", self.update_tick, parts.join(" "))
     }
+}
+
+
+/// Pairs of systems of one schedule of the server App that have conflicting data access and no
+/// ordering between them (names, number of conflicting items).
+pub fn ambiguities(cfg: &Cfg, label: bevy::ecs::schedule::InternedScheduleLabel) -> Vec<((String, String), usize)> {
+    let mut app = build_app(cfg);
+    let mut out = Vec::new();
+    let world = app.world_mut();
+    let mut schedule = world.resource_mut::<Schedules>().remove(label).expect("schedule exists");
+    schedule.set_build_settings(bevy::ecs::schedule::ScheduleBuildSettings {
+        ambiguity_detection: bevy::ecs::schedule::LogLevel::Warn,
+        ..Default::default()
+    });
+    schedule.initialize(world).expect("schedule builds");
+    let names: std::collections::HashMap<_, _> = schedule
+        .systems()
+        .expect("schedule is initialized")
+        .map(|(id, s)| (id, s.name().to_string()))
+        .collect();
+    for (a, b, conflicts) in schedule.graph().conflicting_systems() {
+        out.push(((names[a].clone(), names[b].clone()), conflicts.len()));
+    }
+    world.resource_mut::<Schedules>().insert(schedule);
+    out.sort();
+    out
 }
